@@ -417,7 +417,47 @@ def r10(ctx):
         raise AnalysisBroken('C06.R10: no constant name table is stored into a value list in SingleDataField::create')
 
 
+def r13(ctx):
+    ctx.rule('C06.R13', 'one century for the two-digit year: the year byte of a date stands for 2000 + byte on decoding '
+             '(DateTimeDataType::readSymbols prints 2000 + symbol), so every place where writeSymbols completes a year below '
+             '100 adds that same constant, and the year byte is stored as year - that constant; a different pivot in one '
+             'copy gives the weekday or the day number of another century', minimum=3)
+    fb = ctx.fb
+    rd = fb.fn('ebusd::DateTimeDataType::readSymbols')
+    wr = fb.fn('ebusd::DateTimeDataType::writeSymbols')
+    ctx.touch(rd)
+    ctx.touch(wr)
+    cent = set()
+    raw = set(d for nid, d, rhs, op, lhs in rd.assignments() if d and rhs is not None and '.dataAt(' in rd.key(rhs))
+    for x, v in rd.nodes.items():
+        if v['k'] == 'BinaryOperator' and v.get('op') == '+' and 1800 <= (rd.val(v['lhs']) or rd.val(v['rhs']) or 0) <= 2200 and \
+                any(rd.nodes[a].get('k') == 'CXXOperatorCallExpr' and rd.nodes[a].get('op') == '<<' for a in rd.ancestors(x)) and \
+                any(rd.ref_decl(o) in raw for o in (v['lhs'], v['rhs'])):
+            cent.add(rd.val(v['lhs']) or rd.val(v['rhs']))
+    if len(cent) != 1:
+        raise AnalysisBroken('C06.R13: century added when a year is printed not found (%s)' % sorted(cent))
+    c = cent.pop()
+    n = 0
+    for x, v in sorted(wr.nodes.items()):
+        if v['k'] != 'ConditionalOperator':
+            continue
+        cv = wr.nodes[wr.strip(v['cond'], casts=True)]
+        if cv.get('k') != 'BinaryOperator' or cv.get('op') != '<' or wr.val(cv['rhs']) != 100:
+            continue
+        t = wr.nodes[wr.strip(v['then'], casts=True)]
+        add = (wr.val(t['lhs']) or wr.val(t['rhs'])) if t.get('k') == 'BinaryOperator' and t.get('op') == '+' else None
+        n += 1
+        ctx.ob('C06.R13', wr, x, add == c, 'completion of a two-digit year', 'adds %s, decoding adds %s' % (add, c))
+    for nid, d, rhs, op, lhs in wr.assignments():
+        if op == '-=' and rhs is not None and 1800 <= (wr.val(rhs) or 0) <= 2200:
+            n += 1
+            ctx.ob('C06.R13', wr, nid, wr.val(rhs) == c, 'year byte stored', 'subtracts %s, decoding adds %s' % (wr.val(rhs), c))
+    if n < 3:
+        raise AnalysisBroken('C06.R13: only %d century sites found in writeSymbols' % n)
+
+
 def run(ctx):
+    r13(ctx)
     r10(ctx)
     boundary_rule(ctx, 'C06.R9')
     r8(ctx)
